@@ -3,7 +3,7 @@
 From Coq Require Import List NArith Bool Lia.
 From Coq Require Import ZifyN ZifyNat ZifyBool.
 From Verif Require Import Common.Util Staker.Model Staker.Base Staker.Lists Staker.Inv Staker.RList Staker.Inv2
-  Staker.ProofsStep Staker.ProofsUser Staker.ProofsUser2 Staker.ProofsHist.
+  Staker.ProofsStep Staker.ProofsUser Staker.ProofsUser2 Staker.ProofsHist Staker.Held.
 Import ListNotations.
 Open Scope N_scope.
 
@@ -126,7 +126,7 @@ Lemma renew_step acc s la lq a v s1 ar dw acc1 s2 vr acc2 :
   svc_renew a dw s1 = Ok (s2, vr) -> renewal_add acc1 vr = Ok acc2 ->
   LoopInv acc2 (rl_remove a s2) la lq /\
   (forall b, b <> a -> getv (rl_remove a s2) b = getv s b) /\
-  (exists v2, getv (rl_remove a s2) a = Some v2 /\ v_status v2 = StatusActive /\ v_exit v2 = v_exit v).
+  (exists v2, getv (rl_remove a s2) a = Some v2 /\ v_status v2 = StatusActive /\ v_exit v2 = v_exit v /\ held v2 = held v).
 Proof.
   intros [Hwf HA H2 L1 L2 L3 L4 L5 L6 L7 L8 L9] Hv Hact Hag Hacc1 Hsv Hacc2.
   (* aggregation *)
@@ -198,7 +198,7 @@ Proof.
   - intros b Hne. unfold getv. rewrite E1. change (get (vals s2) b) with (getv (setv a v1 (set_agg a a' s)) b).
     rewrite getv_setv_other by auto. reflexivity.
   - exists v1. unfold getv. rewrite E1. change (get (vals s2) a) with (getv (setv a v1 (set_agg a a' s)) a).
-    rewrite getv_setv_same. auto.
+    rewrite getv_setv_same. split; auto. split; auto. split; auto. unfold held. cbn [v1 v_locked v_queued v_cooldown v_withdrawable set_amounts]. lia.
 Qed.
 
 Definition is_active (s : st) (a : N) : Prop := exists v, getv s a = Some v /\ v_status v = StatusActive.
@@ -208,21 +208,21 @@ Lemma apply_renewals_ok l : forall acc s la lq s' acc',
   apply_renewals l acc s = Ok (s', acc') ->
   LoopInv acc' s' la lq /\
   (forall b, ~ In b l -> getv s' b = getv s b) /\
-  (forall b v, getv s b = Some v -> exists v', getv s' b = Some v' /\ v_status v' = v_status v /\ v_exit v' = v_exit v).
+  (forall b v, getv s b = Some v -> exists v', getv s' b = Some v' /\ v_status v' = v_status v /\ v_exit v' = v_exit v /\ held v' = held v).
 Proof.
   induction l as [|a t IH]; intros acc s la lq s' acc' HL Hact H.
   - cbn in H. inversion H; subst. split; auto. split; auto. intros b v Hv. eauto.
   - cbn [apply_renewals] in H. bstep H r1 Hr1. destruct r1 as [[s1 ar] dw]. bstep H acc1 Ha1.
     bstep H r2 Hr2. destruct r2 as [s2 vr]. bstep H acc2 Ha2.
     destruct (Hact a (or_introl eq_refl)) as [v [Hv Hs]].
-    destruct (renew_step acc s la lq a v s1 ar dw acc1 s2 vr acc2 HL Hv Hs Hr1 Ha1 Hr2 Ha2) as [HL2 [Hoth [v2 [Hv2 [Hs2 Hx2]]]]].
+    destruct (renew_step acc s la lq a v s1 ar dw acc1 s2 vr acc2 HL Hv Hs Hr1 Ha1 Hr2 Ha2) as [HL2 [Hoth [v2 [Hv2 [Hs2 [Hx2 Hh2]]]]]].
     destruct (IH acc2 (rl_remove a s2) la lq s' acc' HL2) as [HL3 [Hfr Hst]]; auto.
     + intros b Hb. destruct (N.eq_dec b a) as [->|Hne]; [exists v2; auto|].
       destruct (Hact b (or_intror Hb)) as [vb [Hvb Hsb]]. exists vb. rewrite Hoth; auto.
     + split; auto. split.
       * intros b Hb. rewrite Hfr by (intros Hx; apply Hb; right; auto). apply Hoth. intros ->. apply Hb. left; auto.
       * intros b vb Hvb. destruct (N.eq_dec b a) as [->|Hne].
-        -- assert (vb = v) by congruence. subst vb. destruct (Hst a v2 Hv2) as [v3 [Hv3 [E1 E2]]]. exists v3. repeat split; congruence.
+        -- assert (vb = v) by congruence. subst vb. destruct (Hst a v2 Hv2) as [v3 [Hv3 [E1 [E2 E3]]]]. exists v3. repeat split; congruence.
         -- rewrite <- (Hoth b Hne) in Hvb. apply (Hst b vb Hvb).
 Qed.
 
@@ -267,7 +267,7 @@ Lemma exit_step s la lq a v eb s2a ve s2b ae s' :
   svc_exit_validator a s = Ok (s2a, ve) -> aggs_exit a s2a = (s2b, ae) -> apply_exit ve ae s2b = Ok s' ->
   exists l1 l2, la = l1 ++ a :: l2 /\ Full s' (l1 ++ l2) lq /\
     (forall b x, b <> a -> getv s b = Some x -> exists x', getv s' b = Some x' /\ core x' = core x) /\
-    exits s' = exits s /\ blk s' = blk s /\ mbp s' = mbp s.
+    exits s' = exits s /\ blk s' = blk s /\ mbp s' = mbp s /\ (forall x, held_by s' x = held_by s x).
 Proof.
   intros [Hwf Hi HA H2] Hv Hact Hex Heb Hr Hae H. pose proof Hi as [I1 I2 I3 I4 I5 I6 I7].
   unfold svc_exit_validator in Hr.
@@ -320,7 +320,7 @@ Proof.
   assert (Crel : core_rel s s' a).
   { intros b Hne. rewrite Gv. split; [apply (proj1 (Hco' b Hne))|intros y Hy; apply (Hco b y Hne Hy)]. }
   destruct (core_eq _ _ Hce) as [Cs [Cc [Cw [Cl [Cp [Cq Cx]]]]]].
-  split; [|split; [|split; [|split]]].
+  split; [|split; [|split; [|split; [|split]]]].
   - constructor.
     + apply (WF_same_vals s1); auto; unfold s'; cbn; auto.
     + unfold s'. constructor; cbn; rewrite ?X1, ?X2, ?X3, ?X6, ?X7, ?X8, ?X9, ?X10, ?X11, ?X12, ?X13 in *; cbn in *; try lia; auto.
@@ -345,6 +345,11 @@ Proof.
   - unfold s'. cbn. rewrite X4. reflexivity.
   - unfold s'. cbn. rewrite X5. reflexivity.
   - unfold s'. cbn. rewrite X16. reflexivity.
+  - intros x. destruct (N.eq_dec x a) as [->|Hne].
+    + unfold held_by. rewrite Gv, Hga, Hv. rewrite (core_held _ _ Hce). unfold held. cbn. lia.
+    + unfold held_by. destruct (getv s x) as [y|] eqn:Ey.
+      * destruct (proj2 (Crel x Hne) y Ey) as [y' [Hy' Ec]]. rewrite Hy'. apply core_held; auto.
+      * rewrite (proj1 (Crel x Hne) Ey). reflexivity.
 Qed.
 
 (* ------------------------------------------------------------------ evictions *)
@@ -356,10 +361,11 @@ Lemma apply_evictions_ok c b l : forall s la lq s',
   (exists lq0, Full s la lq0 /\ lq0 = lq) -> NoDup l -> (forall a, In a l -> evictable_now s a) ->
   apply_evictions c b l s = Ok s' ->
   (exists lq', Full s' la lq') /\ blk s' = blk s /\ mbp s' = mbp s /\
-  (forall x y, getv s x = Some y -> exists y', getv s' x = Some y' /\ v_status y' = v_status y).
+  (forall x y, getv s x = Some y -> exists y', getv s' x = Some y' /\ v_status y' = v_status y) /\
+  (forall x, held_by s' x = held_by s x).
 Proof.
   induction l as [|a t IH]; intros s la lq s' [lq0 [HF ->]] Hnd Hev H.
-  - cbn in H. inversion H; subst. split; [exists lq; auto|]. split; auto. split; auto. intros x y Hy. eauto.
+  - cbn in H. inversion H; subst. split; [exists lq; auto|]. split; auto. split; auto. split; auto. intros x y Hy. eauto.
   - cbn [apply_evictions] in H. bstep H s1 Hs1.
     destruct (Hev a (or_introl eq_refl)) as [v [Hv [Hact Hex]]].
     apply svc_signal_exit_shape2 in Hs1; [|discriminate]. destruct Hs1 as [v2 [eb [cur [Hv2 [Hfree E1]]]]].
@@ -370,10 +376,11 @@ Proof.
     apply NoDup_cons_iff in Hnd as [Hna Hnd'].
     assert (Gx : forall x, x <> a -> getv s1 x = getv s x).
     { intros x Hne. rewrite E1. rewrite getv_setv_other by auto. reflexivity. }
-    destruct (IH s1 la lq1 s') as [F' [B' [M' St']]]; auto.
+    destruct (IH s1 la lq1 s') as [F' [B' [M' [St' Hh']]]]; auto.
     + exists lq1. split; auto. constructor; auto.
     + intros x Hx. destruct (Hev x (or_intror Hx)) as [y [Hy [Hs He]]]. exists y. rewrite Gx; auto. intros ->. contradiction.
-    + split; auto. rewrite B', M', E1. cbn. split; auto. split; auto.
+    + split; auto. rewrite B', M', E1. cbn. split; auto. split; auto. split;
+        [|intros x; rewrite Hh', E1; apply (held_by_setv_same_held a v _ (w_exits (upd (exits s) eb a) s)); auto].
       intros x y Hy. destruct (N.eq_dec x a) as [->|Hne].
       * assert (y = v) by congruence. subst y.
         destruct (St' a (set_completed cur (set_exit (Some eb) v))) as [y' [Hy' Es]]; [rewrite E1; apply getv_setv_same|].
@@ -441,7 +448,8 @@ Proof. intros [E _]. exact E. Qed.
 Lemma activate_step b mx s la lq s' :
   Full s la lq -> activate_next b mx s = Ok s' ->
   exists h lq', Full s' (la ++ [h]) lq' /\ In h lq /\ ~ In h la /\ blk s' = blk s /\ mbp s' = mbp s /\
-    (forall x y, x <> h -> getv s x = Some y -> exists y', getv s' x = Some y' /\ core y' = core y).
+    (forall x y, x <> h -> getv s x = Some y -> exists y', getv s' x = Some y' /\ core y' = core y) /\
+    (forall x, held_by s' x = held_by s x).
 Proof.
   intros [Hwf Hi HA H2] H. pose proof Hi as [I1 I2 I3 I4 I5 I6 I7]. unfold activate_next in H.
   bstep H r Hr. destruct r as [[s1 h] e1]. unfold next_to_activate in Hr.
@@ -535,7 +543,7 @@ Proof.
   pose proof (j_w0 _ H2 h e He) as W0. rewrite Hq in W0. specialize (W0 ltac:(discriminate)).
   set (sf := w_glob _ _ _ _ _ (w_glob _ _ _ _ _ (w_glob _ _ _ _ _ s3))).
   assert (Gvf : forall x, getv sf x = getv s3 x) by reflexivity.
-  exists h, (l1 ++ l2). split; [|split; [auto|split; [auto|split; [unfold sf; cbn; auto|split; [unfold sf; cbn; auto|]]]]].
+  exists h, (l1 ++ l2). split; [|split; [auto|split; [auto|split; [unfold sf; cbn; auto|split; [unfold sf; cbn; auto|split]]]]].
   - constructor.
     + (* lists *)
       apply (WF_same_vals s3); try reflexivity. constructor.
@@ -586,20 +594,26 @@ Proof.
       * unfold sf. cbn. cbn [v_weight set_prev v1 set_start set_status set_amounts]. lia.
       * unfold sf. cbn [vals w_glob]. cbn [v_weight set_prev v1 set_start set_status set_amounts]. lia.
   - intros x y Hne Hy. destruct (Hrec x y Hne Hy) as [y3 [Hy3 [Ec _]]]. exists y3. rewrite Gvf. auto.
+  - intros x. unfold held_by. rewrite Gvf. destruct (N.eq_dec x h) as [->|Hne].
+    + rewrite Hg3, He. pose proof (core_held _ _ Ce1) as Hhe. unfold held in *. cbn [v_locked v_queued v_cooldown v_withdrawable set_prev v1 set_start set_status set_amounts]. lia.
+    + destruct (getv s x) as [y|] eqn:Ey.
+      * destruct (Hrec x y Hne Ey) as [y3 [Hy3 [Ec _]]]. rewrite Hy3. apply core_held; auto.
+      * rewrite (Hnone x Hne Ey). reflexivity.
 Qed.
 
 Lemma activate_n_ok b mx n : forall s la lq s',
   Full s la lq -> activate_n n b mx s = Ok s' ->
   exists la' lq', Full s' la' lq' /\ blk s' = blk s /\ mbp s' = mbp s /\
     (forall x, In x la -> In x la') /\
-    (forall x y, In x la -> getv s x = Some y -> exists y', getv s' x = Some y' /\ core y' = core y).
+    (forall x y, In x la -> getv s x = Some y -> exists y', getv s' x = Some y' /\ core y' = core y) /\
+    (forall x, held_by s' x = held_by s x).
 Proof.
   induction n as [|k IH]; intros s la lq s' HF H.
-  - cbn in H. inversion H; subst. exists la, lq. split; auto. split; auto. split; auto. split; auto. intros x y _ Hy. eauto.
+  - cbn in H. inversion H; subst. exists la, lq. split; auto. split; auto. split; auto. split; auto. split; auto. intros x y _ Hy. eauto.
   - cbn [activate_n] in H. bstep H s1 Hs1.
-    destruct (activate_step b mx s la lq s1 HF Hs1) as [h [lq1 [F1 [Hin [Hnla [B1 [M1 C1]]]]]]].
-    destruct (IH s1 (la ++ [h]) lq1 s' F1 H) as [la' [lq' [F' [B' [M' [Sub' C']]]]]].
-    exists la', lq'. split; auto. split; [congruence|]. split; [congruence|]. split.
+    destruct (activate_step b mx s la lq s1 HF Hs1) as [h [lq1 [F1 [Hin [Hnla [B1 [M1 [C1 Hh1]]]]]]]].
+    destruct (IH s1 (la ++ [h]) lq1 s' F1 H) as [la' [lq' [F' [B' [M' [Sub' [C' Hh']]]]]]].
+    exists la', lq'. split; auto. split; [congruence|]. split; [congruence|]. split; [|split; [|intros x; rewrite Hh', Hh1; reflexivity]].
     + intros x Hx. apply Sub', in_or_app. auto.
     + intros x y Hx Hy. assert (Hne : x <> h) by (intros ->; contradiction).
       destruct (C1 x y Hne Hy) as [y1 [Hy1 Ec1]]. destruct (C' x y1 (in_or_app _ _ _ (or_introl Hx)) Hy1) as [y2 [Hy2 Ec2]].
@@ -621,14 +635,14 @@ Lemma apply_epoch_transition_ok c b t s la lq s' :
   NoDup (tr_evictions t) -> (forall a, In a (tr_evictions t) -> evictable_now s a /\ (tr_exit t = 0 \/ a <> tr_exit t)) ->
   apply_epoch_transition c b t s = Ok s' ->
   exists la' lq', Full s' la' lq' /\ blk s' = blk s /\
-    (forall x, In x la -> x <> tr_exit t -> In x la').
+    (forall x, In x la -> x <> tr_exit t -> In x la') /\ (forall x, held_by s' x = held_by s x).
 Proof.
   intros HF Hren Hexit Hnd Hev H. unfold apply_epoch_transition in H.
   bstep H r1 Hr1. destruct r1 as [s1 acc]. bstep H s2 Hs2.
   destruct (apply_renewals_ok _ _ _ _ _ _ _ (Full_LoopInv _ _ _ HF) Hren Hr1) as [HL [Hfr Hst]].
   destruct (apply_renewal_closes _ _ _ _ _ HL Hs2) as [W2 [I2 [A2 [J2 [G2 [X2 B2]]]]]].
   assert (F2 : Full s2 la lq) by (constructor; auto).
-  assert (St2 : forall x y, getv s x = Some y -> exists y', getv s2 x = Some y' /\ v_status y' = v_status y /\ v_exit y' = v_exit y).
+  assert (St2 : forall x y, getv s x = Some y -> exists y', getv s2 x = Some y' /\ v_status y' = v_status y /\ v_exit y' = v_exit y /\ held y' = held y).
   { intros x y Hy. destruct (Hst x y Hy) as [y' [Hy' E]]. exists y'. rewrite G2. auto. }
   assert (Bs2 : blk s2 = blk s).
   { rewrite B2. clear - Hr1. revert Hr1. generalize renewal0. generalize s. induction (tr_renewals t) as [|a l IH]; intros s0 acc0 H.
@@ -639,27 +653,32 @@ Proof.
       unfold aggs_renew in Hr1. bstep Hr1 r Hr'. destruct r. inversion Hr1; subst. reflexivity. }
   bstep H s3 Hs3. bstep H s4 Hs4.
   (* exit *)
-  assert (E3 : exists la3, Full s3 la3 lq /\ blk s3 = blk s2 /\ (forall x, In x la -> x <> tr_exit t -> In x la3) /\
+  assert (Hh2 : forall x, held_by s2 x = held_by s x).
+  { intros x. unfold held_by. destruct (getv s x) as [y|] eqn:Ey.
+    - destruct (St2 x y Ey) as [y' [Hy' [_ [_ Eh]]]]. rewrite Hy'. exact Eh.
+    - rewrite G2. rewrite Hfr; [rewrite Ey; reflexivity|]. intros Hx. destruct (Hren x Hx) as [y [Hy _]]. congruence. }
+  assert (E3 : exists la3, Full s3 la3 lq /\ blk s3 = blk s2 /\ (forall x, In x la -> x <> tr_exit t -> In x la3) /\ (forall x, held_by s3 x = held_by s2 x) /\
              (forall x y, (tr_exit t = 0 \/ x <> tr_exit t) -> getv s2 x = Some y -> exists y', getv s3 x = Some y' /\ core y' = core y)).
   { destruct (tr_exit t =? 0) eqn:Ez.
-    - inversion Hs3; subst s3. exists la. split; auto. split; auto. split; auto. intros x y _ Hy. eauto.
+    - inversion Hs3; subst s3. exists la. split; auto. split; auto. split; auto. split; auto. intros x y _ Hy. eauto.
     - apply N.eqb_neq in Ez. destruct (Hexit Ez) as [v [eb [Hv [Hact [Hex Heb]]]]].
-      destruct (St2 _ _ Hv) as [v2 [Hv2 [Es2 Ex2]]].
+      destruct (St2 _ _ Hv) as [v2 [Hv2 [Es2 [Ex2 _]]]].
       bstep Hs3 r Hr. destruct r as [s2a ve]. destruct (aggs_exit (tr_exit t) s2a) as [s2b ae] eqn:Hae.
-      destruct (exit_step s2 la lq (tr_exit t) v2 eb s2a ve s2b ae s3 F2 Hv2) as [l1 [l2 [El [F3 [C3 [X3 [B3 M3]]]]]]]; auto; try congruence; try lia.
-      exists (l1 ++ l2). split; auto. split; auto. split.
+      destruct (exit_step s2 la lq (tr_exit t) v2 eb s2a ve s2b ae s3 F2 Hv2) as [l1 [l2 [El [F3 [C3 [X3 [B3 [M3 H3]]]]]]]]; auto; try congruence; try lia.
+      exists (l1 ++ l2). split; auto. split; auto. split; [|split; [exact H3|]].
       + intros x Hx Hne. rewrite El in Hx. apply in_app_iff in Hx as [Hx|[Hx|Hx]]; [apply in_or_app; auto|congruence|apply in_or_app; auto].
       + intros x y [Hz|Hne] Hy; [congruence|]. apply (C3 x y Hne Hy). }
-  destruct E3 as [la3 [F3 [B3 [Sub3 C3]]]].
+  destruct E3 as [la3 [F3 [B3 [Sub3 [Hh3 C3]]]]].
   (* evictions *)
-  destruct (apply_evictions_ok c b (tr_evictions t) s3 la3 lq s4) as [[lq4 F4] [B4 [M4 St4]]]; auto.
+  destruct (apply_evictions_ok c b (tr_evictions t) s3 la3 lq s4) as [[lq4 F4] [B4 [M4 [St4 H4]]]]; auto.
   { exists lq. auto. }
   { intros a Ha. destruct (Hev a Ha) as [[v [Hv [Hact Hex]]] Hne].
-    destruct (St2 _ _ Hv) as [v2 [Hv2 [Es2 Ex2]]]. destruct (C3 a v2 Hne Hv2) as [v3 [Hv3 Ec]]. cf Ec.
+    destruct (St2 _ _ Hv) as [v2 [Hv2 [Es2 [Ex2 _]]]]. destruct (C3 a v2 Hne Hv2) as [v3 [Hv3 Ec]]. cf Ec.
     exists v3. split; auto. split; congruence. }
   (* activations *)
-  destruct (activate_n_ok b (get_mbp s4) (N.to_nat (tr_count t)) s4 la3 lq4 s' F4 H) as [la' [lq' [F' [B' [M' [Sub' _]]]]]].
-  exists la', lq'. split; auto. split; [congruence|]. intros x Hx Hne. apply Sub', Sub3; auto.
+  destruct (activate_n_ok b (get_mbp s4) (N.to_nat (tr_count t)) s4 la3 lq4 s' F4 H) as [la' [lq' [F' [B' [M' [Sub' [_ Hh']]]]]]].
+  exists la', lq'. split; auto. split; [congruence|]. split; [intros x Hx Hne; apply Sub', Sub3; auto|].
+  intros x. rewrite Hh', H4, Hh3, Hh2. reflexivity.
 Qed.
 
 (* ------------------------------------------------------------------ what compute_epoch_transition returns *)
@@ -749,7 +768,8 @@ Proof.
 Qed.
 
 Theorem block_step_Full c s la lq : Full s la lq ->
-  exists la' lq', Full (step c s OBlock) la' lq' /\ forall x, In x la -> x <> get_exit s (blk s + 1) -> In x la'.
+  exists la' lq', Full (step c s OBlock) la' lq' /\ (forall x, In x la -> x <> get_exit s (blk s + 1) -> In x la') /\
+    (forall x, held_by (step c s OBlock) x = held_by s x).
 Proof.
   intros HF. unfold step. destruct (run_op c OBlock s) as [[s' x]| |] eqn:E; [|exists la, lq; auto|exists la, lq; auto].
   cbn [run_op] in E. bstep E r Hr. destruct r as [[s1 ac] up]. inversion E; subst s' x; clear E.
@@ -758,12 +778,12 @@ Proof.
   destruct (sync_pos_cases _ _ _ _ _ _ Hr) as [->|[t [Hc Ha]]]; [exists la, lq; auto|].
   destruct (compute_facts c b s0 la lq t F0 Hc) as [Hren [Hex [Hnd Hev]]].
   change (get_exit s0 b) with (get_exit s b) in Hex.
-  destruct (apply_epoch_transition_ok c b t s0 la lq s1 F0 Hren) as [la' [lq' [F' [_ Sub]]]]; auto.
+  destruct (apply_epoch_transition_ok c b t s0 la lq s1 F0 Hren) as [la' [lq' [F' [_ [Sub Hh]]]]]; auto.
   - intros Hz. rewrite Hex in *. destruct (j_exit _ (f_2 _ _ _ HF) b (get_exit s b) eq_refl Hz) as [v [Hv [Hs He]]]; [unfold b; lia|].
     exists v, b. repeat split; auto. cbn. lia.
   - intros a Ha'. split; [apply Hev; auto|]. destruct (N.eq_dec (tr_exit t) 0) as [Hz|Hz]; [left; auto|right].
     intros ->. destruct (Hev _ Ha') as [v [Hv [Hs He]]]. rewrite Hex in *.
     destruct (j_exit _ (f_2 _ _ _ HF) b (get_exit s b) eq_refl Hz) as [v' [Hv' [_ He']]]; [unfold b; lia|].
     change (getv s0 (get_exit s b)) with (getv s (get_exit s b)) in Hv. assert (v' = v) by congruence. subst v'. congruence.
-  - exists la', lq'. split; auto. intros x Hx Hne. apply Sub; auto. rewrite Hex. auto.
+  - exists la', lq'. split; auto. split; [intros x Hx Hne; apply Sub; auto; rewrite Hex; auto|]. intros x. rewrite Hh. reflexivity.
 Qed.
